@@ -39,14 +39,14 @@ NOT_APPLICABLE = [
 
 _common_note = ("trusted base: the reference store model (sim/store.go; its agreement with a real nats-server/nats.go is sampled by C14's differential half), the synctest fake clock, "
                 "the toolchain overlays that make select/timer/context-child order and math/rand/v2 seeded, the stubbed layers below nats.KeyValue; interleavings finer than simulator points "
-                "(store-op phases, watch deliveries, API calls, notifications, timers, verifYield sites, a yield before every lock acquisition) are not explored; a clean batch is evidence over the plans run, not proof")
+                "(store-op phases, watch deliveries, API calls, notifications, timers, verifYield sites, a yield before every lock acquisition and after every release; inside critical sections and in front of atomic operations only in the plans of family c11lock) are not explored; a clean batch is evidence over the plans run, not proof")
 
 def _t(level_text, technique, design_ref, note=_common_note):
     return {"level_text": level_text, "technique": technique, "design_ref": design_ref, "level_note": note}
 
 MANIFEST_TEXT = {
     "C01": _t("seeded search over plans (2-5 instances, 1-2 groups, lifecycle actions, all store fault classes, yields); history check of every successful mutation in the complete store log against the four legitimate kinds", "deterministic simulation + history check of the store mutation log", "DESIGN.md 6/C01"),
-    "C02": _t("seeded search over fault-free plans with every operation below H/2; invariant at every leadership-flag change (observed inside the library's critical section) and coverage of every term by a live record with the claimant's id and token", "deterministic simulation + invariant at every flag change + term/record timeline check", "DESIGN.md 6/C02"),
+    "C02": _t("seeded search over fault-free plans with every operation below H/2 (heartbeat intervals 50 ms - 10 s, optional Metrics/Logger left nil in a sixth of the plans, Start issued while the previous term's DeleteKey delete is in flight); invariant at every leadership-flag change (observed inside the library's critical section) and coverage of every term by a live record with the claimant's id and token", "deterministic simulation + invariant at every flag change + term/record timeline check", "DESIGN.md 6/C02"),
     "C03": _t("fault position (heartbeat attempt 0-8) x fault kind (10 kinds) x H class enumerated by the generator with random latencies per cell, plus mixed-fault exploration; both clauses judged on recorded attempt completions, the numeric bounds only where their antecedent holds", "deterministic simulation with enumerated fault position/kind + history check of heartbeat attempts", "DESIGN.md 6/C03"),
     "C04": _t("seeded search: validation calls from client goroutines racing with takeover, expiry, deletion and outsider writes of 35 payload shapes, faults on the read, context deadlines; every 'true' must be backed by a record version in the call interval, every 'false' of ValidateTokenOrDemote by a demotion", "deterministic simulation + interval check against the record timeline", "DESIGN.md 6/C04"),
     "C05": _t("seeded search over multi-term histories; every acquisition's token checked for freshness over the whole bucket history, every refresh for identity, OnPromote/Token()/Status() against the record at promotion and at quiescent points", "deterministic simulation + history check of record versions", "DESIGN.md 6/C05"),
@@ -55,8 +55,8 @@ MANIFEST_TEXT = {
     "C08": _t("seeded search incl. a family with coinciding demotion causes (aligned tickers, constant latencies) and preemption before every lock acquisition; per-instance state machine over claim edges and callback entries", "deterministic simulation + alternation state machine over the callback log", "DESIGN.md 6/C08"),
     "C09": _t("stop points enumerated by (operation number 1-16 of the stopping instance, phase: before issue / between issue and application / between application and response / after return, 7 stop variants, optional second stop or start) with a random remainder of the schedule, plus stops at random times in the mixed families and worker-crash/deadlock detection; after the return of a successful stop: no claim, no OnPromote, no new store operation, no library goroutine left, time bounds, DeleteKey effect", "deterministic simulation + post-stop silence check + goroutine dump + watchdog", "DESIGN.md 6/C09"),
     "C10": _t("safety on every replacement under the full fault set; promptness/stability in a fault-free family (latency and watch delay <= H/10) over sampled priority/flag assignments and start orders", "deterministic simulation + mutation-log check + bounded-liveness check", "DESIGN.md 6/C10"),
-    "C11": _t("seeded search over notification sequences on a timing lattice around the grace period, with partitions, ownership changes and stops; (a) never before G since the latest notification, (b) exactly at expiry, (c) reconnect verification outcome vs. record, plus deadlock/panic detection", "deterministic simulation + timing checks on the fake clock + watchdog", "DESIGN.md 6/C11"),
-    "C12": _t("seeded search over scripted health sequences (streaks m-1, m, m+1 around term boundaries, slow results), thresholds 1-6 and default; reference counter run over the health-call log", "deterministic simulation + reference counter", "DESIGN.md 6/C12"),
+    "C11": _t("seeded search over notification sequences on a timing lattice around the grace period, with partitions, ownership changes and stops, goroutines parked inside critical sections in front of atomic operations (family c11lock) and terms that end and restart inside a reconnect verification (family c11reacq); (a) never before G since the latest notification, (b) exactly at expiry, (c) reconnect verification outcome vs. record, plus deadlock/panic detection", "deterministic simulation + timing checks on the fake clock + watchdog", "DESIGN.md 6/C11"),
+    "C12": _t("seeded search over scripted health sequences (streaks m-1, m, m+1 around term boundaries, slow results, probes that ignore their context and answer in a later term, slow OnDemote, refreshes answered later than the next tick), thresholds 1-6 and default; reference counter run over the health-call log", "deterministic simulation + reference counter", "DESIGN.md 6/C12"),
     "C13": _t("seeded search: outsider writes of 35 payload shapes (empty, truncated, wrong types, 1 MiB, 12000-deep, foreign well-formed) and deletes at arbitrary steps against followers, leaders and takeover candidates; crash/deadlock/recursion/operation-storm detection, promotion only on an own successful write, tampered leader demoted within the C03 bound", "deterministic simulation + crash/recursion detectors + history checks", "DESIGN.md 6/C13"),
     "C14": _t("(a) simulated: the library's real adapter over scripted nats.KeyWatcher/KeyValue with generated consumer patterns (Updates() once / every iteration / several goroutines), producer timing and Stop; (b) NOT simulation, reported separately: seeded operation sequences through the real adapter against a real embedded nats-server compared step by step with the reference store", "deterministic simulation of the adapter + differential model-conformance sampling", "DESIGN.md 6/C14"),
     "C17": _t("(i) RetryWithBackoff and (ii) CircuitBreaker under the fake clock with generated outcome scripts, cancellation times and call times around the cooldown edge, gaps compared exactly with the formula evaluated on the jitter draw the harness supplied; (iii) every acquisition round in election plans; the pure CalculateBackoff clause is input-generated, not simulation, and reported separately", "deterministic simulation with supplied jitter draws + exact gap check", "DESIGN.md 6/C17"),
